@@ -299,6 +299,12 @@ Fixpoint esm_redeem_loop (c : cfg) (lc : lcfg) (app : Z) (vl : list vault) (l : 
 Definition esm_redeem (c : cfg) (lc : lcfg) (l : lstate) (app : Z) : outcome lstate :=
   esm_redeem_loop c lc app (vaults (vs l)) l.
 
+(* known-finding class C01-F4, on the state in which the auctionsV2 BeginBlocker runs: some auction of an
+   app under emergency shutdown is past its end time, so AuctionIterator calls TriggerEsm for it *)
+Definition esm_return_due (l : lstate) : bool :=
+  existsb (fun a => e_status (esm (vs l) (au_app a)) && (now (vs l) >? au_end a)) (aus l).
+Definition kf_C01_4 (l : lstate) (o_is_tick : bool) : bool := o_is_tick && esm_return_due l.
+
 (* ---------- operations ---------- *)
 Inductive lop :=
 | VOp (o : op)                                            (* a vault message or environment change (Vault.v) *)
